@@ -42,3 +42,30 @@ Theorem C15_row_major_policy_ok :
   (forall es e e', first_min es = Some e -> In e' es -> (ed e <= ed e')%Z) /\
   (forall es, first_min es = None -> es = nil).
 Proof. repeat split; [apply first_min_in|apply first_min_min|apply first_min_none]. Qed.
+
+(* The cluster dictionary as Hierarchical.fit builds it (ClusterPart.v: lazily created entries, update/del, the
+   prototypes added at the end): for every well-formed merge sequence -- and Cluster.run only produces such, for
+   every choice / swap policy -- the result partitions 0..n-1, keys are never-absorbed series and members of their
+   own cluster. *)
+From DV Require Import ClusterPart.
+
+Theorem C15_clusters_partition : forall n ms, wf_merges n nil ms ->
+  let cs := clusters_model n ms in
+  NoDup (map fst cs) /\
+  (forall k s, In (k, s) cs -> (k < n)%nat /\ ~ In k (snd (dsteps ms)) /\ In k s /\ NoDup s /\
+                               forall j, In j s <-> ((j < n)%nat /\ owners ms j = k)) /\
+  (forall j, (j < n)%nat -> exists s, In (owners ms j, s) cs /\ In j s) /\
+  (forall j k s k' s', In (k, s) cs -> In (k', s') cs -> In j s -> In j s' -> k = k').
+Proof. exact clusters_partition. Qed.
+
+Theorem C15_run_merges_well_formed : forall choose, (forall es e, choose es = Some e -> In e es) ->
+  forall swap maxd n fuel es del, entries_ok n del es ->
+  wf_merges n del (map (fun m => (m_into m, m_from m)) (fst (run choose swap maxd fuel es))).
+Proof. exact run_wf. Qed.
+
+Theorem C15_fit_partitions : forall n maxd es, (forall e, In e es -> (er e < ec e)%nat /\ (ec e < n)%nat) ->
+  let cs := clusters_model n (map (fun m => (m_into m, m_from m)) (fit_model n maxd es)) in
+  NoDup (map fst cs) /\ (forall k s, In (k, s) cs -> (k < n)%nat /\ In k s /\ NoDup s) /\
+  (forall j, (j < n)%nat -> exists k s, In (k, s) cs /\ In j s) /\
+  (forall j k s k' s', In (k, s) cs -> In (k', s') cs -> In j s -> In j s' -> k = k').
+Proof. exact fit_clusters_partition. Qed.
